@@ -164,6 +164,17 @@ func runDescribe(e *Env) {
 					}
 				case 1:
 					bad := mkFrame(svcDescrRes, []byte{0x36, 1, 2, 3}) // truncated description
+					switch e.Choose("wl.badblock", 3) {
+					case 1: // a device block two octets short of its fixed 54 (the blocks add up to the frame all the same)
+						dev := mkDeviceDIB("short-dev")
+						dev = dev[:52]
+						dev[0] = 52
+						bad = mkFrame(svcDescrRes, append(dev, mkFamDIB(1)...))
+					case 2: // a families block with half a family in it
+						fam := append(mkFamDIB(2), 7)
+						fam[0]++
+						bad = mkFrame(svcDescrRes, append(mkDeviceDIB("odd-fam"), fam...))
+					}
 					illFormed[string(bad)] = true
 					send(bad)
 				case 2:
